@@ -275,6 +275,9 @@ func c08Run(p *Plan, x *Ctx, out *Outcome) {
 	} else {
 		ch = NewPolicyChooser(x.R, p.Policy, len(p.Tasks), true)
 	}
+	if p.Cfg("coarse", "") == "on" {
+		run.SetCoarse(true)
+	}
 	run.Schedule(ch)
 	if !x.Replay && len(p.Schedule) == 0 {
 		p.Schedule = run.Executed
